@@ -65,6 +65,18 @@ func run(id, tier, seed, replay, verif, pkg, scratch string) int {
 	if raceBuild[id] {
 		args = append(args, "-race")
 	}
+	if alt := os.Getenv("VERIF_REPO"); alt != "" {
+		// Validation aid: build against a scratch copy of the repository (seeded
+		// mutations). Never used by the registered commands.
+		gm, err := os.ReadFile(filepath.Join(verif, "go.mod"))
+		must(err)
+		gm2 := strings.Replace(string(gm), "=> /repo", "=> "+alt, 1)
+		must(os.WriteFile(filepath.Join(scratch, "go.mod"), []byte(gm2), 0644))
+		gs, _ := os.ReadFile(filepath.Join(verif, "go.sum"))
+		os.WriteFile(filepath.Join(scratch, "go.sum"), gs, 0644)
+		args = append(args, "-modfile="+filepath.Join(scratch, "go.mod"))
+		fmt.Printf("vcheck: building against VERIF_REPO=%s\n", alt)
+	}
 	args = append(args, "-o", bin, pkg)
 	build := exec.Command("go", args...)
 	build.Dir = verif
@@ -79,6 +91,11 @@ func run(id, tier, seed, replay, verif, pkg, scratch string) int {
 
 	evidence := filepath.Join(verif, "evidence", id+".json")
 	replays := filepath.Join("replays", id)
+	if os.Getenv("VERIF_REPO") != "" {
+		// keep the registered evidence untouched when validating against a copy
+		evidence = filepath.Join(verif, "replays", "alt-evidence", id+".json")
+		replays = filepath.Join("replays", "alt", id)
+	}
 	known := filepath.Join(verif, "known_findings.jsonl")
 	caselog := filepath.Join(scratch, "cases.log")
 
